@@ -36,7 +36,7 @@ def rpc(case, res):
     prm = case.get("params", {})
 
     def body(S, rng):
-        b = Bus(S, rng, dict(hostile_owner=0.0, id_less=0.1, per_conn_ids=False))     # (the request generator numbers its ids itself)
+        b = Bus(S, rng, dict(hostile_owner=0.0, id_less=0.1, per_conn_ids=False, odd_ids=False))     # (the request generator numbers its ids itself)
         b.start()
         b.run(prm.get("warmup", 12))
         used_empty = set()
